@@ -49,3 +49,27 @@ Definition check_generations (frames : list (tframe ctensor)) (cs : cstats) (i :
       | None => match i with IRaise => true | _ => false end
       end
   end.
+
+(* a payload written by torch.save directly (not by torch_frame.save): what does
+   load make of it?  Compared with the implementation when both return, and when
+   the implementation raises; when the implementation returns normally where the
+   model mirrors today's raise, nothing is demanded. *)
+Definition check_crafted (p : payload ctensor cstats) (i : iobs) : bool :=
+  match c_load (cenc p), i with
+  | Some (t, cs), IMat f cs' =>
+      c_tframe_wfb t &&                                  (* load_returns_only_wellformed_frames, evaluated *)
+      match read_frame t with Some f' => frame_obs_eqb f' f | None => false end && (cs =? cs')%Z
+  | None, IRaise => true
+  | None, _ => true
+  | Some _, _ => false
+  end.
+
+(* several saves onto ONE path (truncating open), then load: the last one *)
+Definition c_reuse_then_load :=
+  reuse_then_load ct_dim ct_size c_valid_nested c_valid_embed cenc cdec.
+Definition check_reuse (l : list (tframe ctensor * cstats)) (i : iobs) : bool :=
+  forallb (fun p => c_tframe_wfb (fst p)) l &&
+  match c_reuse_then_load OTrunc None l, last l (MkTF [] [] None None, 0%Z) with
+  | Some (t, cs), (_, cs0) => obs_match cs0 (OMat ccout t cs) i
+  | None, _ => match i with IRaise => true | _ => false end
+  end.
